@@ -7,7 +7,7 @@ from ..evidence import timebox, CaseTimeout, h
 LEVEL = 'exploration'
 RULE = ('random well-formed rulesets (1-5 base structures incl. duplicates, repeated variable types, 1-4 groups of 1-3 values, '
         'probability pools: dyadic / decimal / thirds / tiny-underflow / all-equal / count-ratios) x skip_brute x all_lower x '
-        '{Grammar,Prince}; every POP of the real PcfgQueue to exhaustion is checked online. non-trivial = run with >=1 exact '
+        '{Grammar,Prince}; every POP of the real PcfgQueue to exhaustion is checked online; every second run has the previous grammar\'s queue, abandoned after 3 pops, alive and popped in between (process history); fresh-process runs under other hash seeds must give the same sequence. non-trivial = run with >=1 exact '
         'float tie between distinct pre-terminals or a repeated variable type; distinct by hash(spec, flags)')
 SHARDS = {'quick': 4, 'thorough': 16}
 N = {'quick': 90, 'thorough': 2500}      # rulesets per shard
@@ -37,11 +37,14 @@ def check_case(run, case, determinism=False):
             run.inconc('language above cap')
             return
         index, total = gstream.oracle_index(lang)
+        used = gstream.LIVE['used']
         try:
             pcfg, mon = gstream.run_queue(path, flags, max_pops=total + 5)
         except OverflowError:
             run.violation(f'the queue keeps emitting pre-terminals beyond the {total} the language holds (no exhaustion)', case); return
         run.ev('POP', len(mon.pops))
+        if gstream.LIVE['used'] != used:
+            run.ev('runs_beside_a_live_abandoned_queue')
         if case.get('train') is not None:
             case['spec']['base'] = [list(x) for x in disk.base_rows['Grammar']][:8]; case['spec']['prince'] = [list(x) for x in disk.base_rows['Prince']][:8]
         brief = {'base': case['spec']['base'] if flags['folder'] == 'Grammar' else case['spec']['prince'], 'flags': case['flags'],
@@ -98,7 +101,7 @@ def check_case(run, case, determinism=False):
         repo.drop_rules(name)
 
 def run(run, rng):
-    run.required_events = ['POP', 'prob_checked', 'determinism_runs']
+    run.required_events = ['POP', 'prob_checked', 'determinism_runs', 'runs_beside_a_live_abandoned_queue']
     run.min_distinct = 5
     run.assumptions = ['well-formed rulesets: every label used by a base structure has a non-empty file, values have the stated length',
                        'probability equality is judged on the doubles the loader obtains with float(text)',
